@@ -20,7 +20,9 @@ func init() {
 		Explanation: "Decided: (R1) for every registered (reader, writer) pair, for the message framing (WriteMessage/ReadMessage), the envelope (Encode/DecodeEnvelopWithRemoting), the handshake and the version-vector helpers, the sets of wire-symbol sequences along all success paths are equal (helpers inlined, loops unrolled 0..2); " +
 			"(R2) the primitive writer's and reader's type switches cover the same types with paired methods of equal width and byte order; (R3) each registered reader/writer asserts the registered type, which is a pointer type, and wire names are pairwise distinct; " +
 			"(R4) every field of a registered message type (and of the structs its helpers serialise) is read by the writer and written by the reader, or is in the exemption table; (R5) no writer-side narrowing integer conversion of a message field (7 known findings); " +
-			"(R6) at every wire position where both sides resolve a message field, it is the same field (a swap of two same-typed fields is caught). " +
+			"(R6) at every wire position where both sides resolve a message field, it is the same field (a swap of two same-typed fields is caught); " +
+			"(R7) a writer sends a constant in place of a field value only on a path that observed that field absent (nil / zero / failed type assertion of a value read from the message), never by consulting other state; " +
+			"(R8) a reader-side guard comparing a wire count with the bytes that remain admits count == remaining (an empty collection written last is valid writer output). " +
 			"NOT decided: value-level equality (nil vs empty map, zero time, presence-flag values), user-registered types outside the module.",
 		Assumptions: []string{"success paths: error edges (err != nil on an error-typed value) and returns of constructed errors are pruned"},
 		Rules: []Rule{
@@ -30,6 +32,8 @@ func init() {
 			{ID: "C12.R4", Min: 20, Desc: "field coverage", Fn: c12Coverage},
 			{ID: "C12.R5", Min: 7, Desc: "no lossy conversion on the writer side", Fn: c12Lossy},
 			{ID: "C12.R6", Min: 12, Desc: "positional field correspondence", Fn: c12Positions},
+			{ID: "C12.R7", Min: 3, Desc: "no constant substituted for a present field", Fn: c12Substitution},
+			{ID: "C12.R8", Min: 2, Desc: "remaining-size guards admit the boundary count", Fn: c12Boundary},
 		},
 	})
 }
@@ -599,6 +603,251 @@ func c12Lossy(p *Program, r *Report) {
 	}
 	if n == 0 {
 		r.Lookup("writer-side integer conversions", token.NoPos, "no narrowing conversion of a message field found")
+	}
+}
+
+// c12Substitution: a writer sends a constant in place of a message field only on paths where the field was observed
+// absent (nil / zero / failed type assertion of a value read from the message). A constant chosen by anything else —
+// a registry lookup, a flag elsewhere — silently drops information the reader cannot restore.
+func c12Substitution(p *Program, r *Report) {
+	c := p.codec()
+	n := 0
+	seen := map[*ssa.Function]bool{}
+	fromMessage := func(v ssa.Value) bool {
+		o := p.origins(v)
+		if len(o) == 0 {
+			return false
+		}
+		// the stream and the codec are not the message
+		notMsg := map[string]bool{}
+		if in, ok := v.(ssa.Instruction); ok {
+			root := in.Parent()
+			for root.Parent() != nil {
+				root = root.Parent()
+			}
+			for _, fn := range []*ssa.Function{in.Parent(), root} {
+				for _, prm := range fn.Params {
+					if n := namedOf(prm.Type()); n != nil && (n == c.WriterT || n == c.ReaderT || n.Obj().Name() == "Codec") {
+						notMsg["param:"+prm.Name()] = true
+					}
+				}
+			}
+		}
+		for _, ch := range o {
+			last := ch
+			if i := strings.LastIndex(ch, "<-"); i >= 0 {
+				last = ch[i+2:]
+			}
+			if (!strings.HasPrefix(last, "param:") && !strings.HasPrefix(last, "freevar:")) || notMsg[last] {
+				return false
+			}
+		}
+		return true
+	}
+	absence := func(ifi *ssa.If, outcome bool) bool {
+		f, ok := condFact(ifi.Cond, outcome)
+		if !ok || f.Y != nil || f.Op != token.EQL {
+			return false
+		}
+		if !(f.IsNil || f.Bool || f.C == 0) {
+			return false
+		}
+		return fromMessage(f.X)
+	}
+	underAbsence := func(pred, phiB *ssa.BasicBlock) bool {
+		if ifi, ok := pred.Instrs[len(pred.Instrs)-1].(*ssa.If); ok {
+			for k, outcome := range []bool{true, false} {
+				if pred.Succs[k] == phiB && pred.Succs[1-k] != phiB && absence(ifi, outcome) {
+					return true
+				}
+			}
+		}
+		for _, b := range pred.Parent().Blocks {
+			ifi, ok := b.Instrs[len(b.Instrs)-1].(*ssa.If)
+			if !ok {
+				continue
+			}
+			for k, outcome := range []bool{true, false} {
+				s := b.Succs[k]
+				if len(s.Preds) == 1 && s.Dominates(pred) && absence(ifi, outcome) {
+					return true
+				}
+			}
+		}
+		return false
+	}
+	var visit func(fn *ssa.Function, depth int)
+	visit = func(fn *ssa.Function, depth int) {
+		if fn == nil || seen[fn] || depth > 4 {
+			return
+		}
+		seen[fn] = true
+		for _, b := range fn.Blocks {
+			for _, in := range b.Instrs {
+				cc := callOf(in)
+				if cc == nil || cc.StaticCallee() == nil {
+					continue
+				}
+				cal := cc.StaticCallee()
+				if p.inModule(cal) {
+					if _, isW := p.streamParam(cal); isW {
+						visit(cal, depth+1)
+					}
+				}
+				if cal.Signature.Recv() == nil || namedOf(cal.Signature.Recv().Type()) != c.WriterT || !strings.HasPrefix(cal.Name(), "Write") {
+					continue
+				}
+				var args []ssa.Value
+				for _, a := range cc.Args[1:] {
+					if elems, ok := varargElems(a); ok {
+						args = append(args, elems...)
+					} else {
+						args = append(args, a)
+					}
+				}
+				for ai, a := range args {
+					if mi, ok := a.(*ssa.MakeInterface); ok {
+						a = mi.X
+					}
+					var phis []*ssa.Phi
+					seenV := map[ssa.Value]bool{}
+					var collect func(v ssa.Value)
+					collect = func(v ssa.Value) {
+						if seenV[v] {
+							return
+						}
+						seenV[v] = true
+						if ph, ok := v.(*ssa.Phi); ok {
+							phis = append(phis, ph)
+							for _, e := range ph.Edges {
+								collect(e)
+							}
+						}
+					}
+					collect(a)
+					for _, ph := range phis {
+						hasField := false
+						for _, e := range ph.Edges {
+							if _, isC := e.(*ssa.Const); !isC {
+								hasField = true
+							}
+						}
+						if !hasField {
+							continue
+						}
+						for ei, e := range ph.Edges {
+							if _, isC := e.(*ssa.Const); !isC {
+								continue
+							}
+							n++
+							pred := ph.Block().Preds[ei]
+							r.Check(underAbsence(pred, ph.Block()), fmt.Sprintf("%s: %s argument %d, constant alternative #%d", fnName(fn), cal.Name(), ai, ei), in.Pos(),
+								"the constant is sent instead of the field only on a path that observed the field absent (nil / zero / failed assertion of a value read from the message)")
+						}
+					}
+				}
+			}
+		}
+	}
+	for _, rg := range p.registrations() {
+		visit(rg.Writer, 0)
+	}
+	if n == 0 {
+		r.Lookup("constant substitutes in writers", token.NoPos, "no writer sends a constant as an alternative to a field value")
+	}
+}
+
+// c12Boundary: a reader-side plausibility guard comparing a wire count with the bytes that remain must admit
+// count == remaining: an empty collection written last, or a collection of one-byte elements filling the rest of the
+// buffer, is valid writer output. (Which counts are *needed* is arithmetic and not decided; rejecting the boundary is
+// visible in the comparison operator.)
+func c12Boundary(p *Program, r *Report) {
+	n := 0
+	for _, fn := range sortedFuncs(p.codecScope()) {
+		wi := p.wireInts(fn)
+		g := p.ig(fn)
+		for _, ifi := range ifsOf(fn) {
+			f, ok := condFact(ifi.Cond, true)
+			if !ok || f.Y == nil {
+				continue
+			}
+			isRem := func(v ssa.Value) bool {
+				if cc, ok := unconv(v).(*ssa.Call); ok {
+					if b, isB := cc.Call.Value.(*ssa.Builtin); isB && b.Name() == "len" {
+						return true
+					}
+				}
+				o := p.origins(unconv(v))
+				return anyContains(o, "RemainingSize") || anyContains(o, "binop:-") || anyContains(o, "call:len")
+			}
+			isCnt := func(v ssa.Value) bool { return wi[v] || wi[unconv(v)] || wi[strip(v)] }
+			var cntLeft bool
+			switch {
+			case isCnt(f.X) && isRem(f.Y):
+				cntLeft = true
+			case isCnt(f.Y) && isRem(f.X):
+				cntLeft = false
+			default:
+				continue
+			}
+			// normalise to "count OP remaining" on the true edge
+			op := f.Op
+			if !cntLeft {
+				op = flipTok(op)
+			}
+			// the edge on which count >= remaining (boundary included) and the edge on which count > remaining
+			var rejectsBoundary bool
+			var rejEdge edge
+			switch op {
+			case token.GEQ: // true edge: count >= remaining
+				rejEdge, rejectsBoundary = g.branchEdge(ifi, true), true
+			case token.LSS: // false edge: count >= remaining
+				rejEdge, rejectsBoundary = g.branchEdge(ifi, false), true
+			case token.GTR, token.LEQ:
+				rejectsBoundary = false
+			default:
+				continue
+			}
+			n++
+			construct := "remaining-size guard in " + fnName(fn)
+			if !rejectsBoundary {
+				r.Check(true, construct, ifi.Cond.Pos(), "the guard separates count > remaining from count <= remaining: the boundary count is admitted")
+				continue
+			}
+			// count >= remaining goes one way: a violation if that way only fails
+			fails := true
+			for ex := range g.Reach([]int{rejEdge.to}, nil, nil) {
+				ret, isRet := g.Nodes[ex].(*ssa.Return)
+				if !isRet || len(ret.Results) == 0 {
+					continue
+				}
+				last := retOperand(ret, len(ret.Results)-1)
+				if b, isB := constBool(last); isB {
+					if b {
+						fails = false
+					}
+				} else if isNilConst(last) {
+					fails = false
+				}
+			}
+			r.Check(!fails, construct, ifi.Cond.Pos(), "count == remaining is sent down a path that only fails: valid encodings ending in an empty collection (or in one-byte elements) are rejected")
+		}
+	}
+	if n == 0 {
+		r.Unresolved("no comparison of a wire count with the remaining size found")
+	}
+}
+
+func unconv(v ssa.Value) ssa.Value {
+	for {
+		switch x := v.(type) {
+		case *ssa.Convert:
+			v = x.X
+		case *ssa.ChangeType:
+			v = x.X
+		default:
+			return v
+		}
 	}
 }
 
